@@ -598,6 +598,30 @@ class Index:
             raise AnalysisError(f"anchor function vanished: {spec}")
         return f
 
+    def inlined(self, fi):
+        """a copy of the function with the private helpers it calls expanded in place (sa/normalize.py:Inliner, the same
+        behaviour-preserving rewrite the inline view applies to the whole tree): rules that relate values inside one
+        function use it so that `a, b = _helper(x)` is seen as the statements of the helper.  Cached per function; the
+        function itself and the index are not modified."""
+        import copy
+
+        cache = self.__dict__.setdefault("_inlined", {})
+        if id(fi) in cache:
+            return cache[id(fi)]
+        from . import normalize
+
+        f2 = copy.copy(fi)
+        f2.node = copy.deepcopy(fi.node)
+        try:
+            inl = normalize.Inliner(self)
+            f2.node.body = inl.expand_block(f2, normalize._all_names(f2.node), f2.node.body)
+            ast.fix_missing_locations(f2.node)
+            self.__dict__.setdefault("_inlined_helpers", {})[id(f2)] = sorted(t.qualname for t in inl.inlined)
+        except Exception:  # noqa - an expansion that fails leaves the function as written
+            f2 = fi
+        cache[id(fi)] = f2
+        return f2
+
     def call_arg(self, call, name, dotted):
         """the argument expression bound to parameter `name` in a call of the repository function `dotted`
         (positional or keyword), or None"""
